@@ -21,7 +21,13 @@ fn exec(t: &[String]) -> Option<String> {
         use bed_utils::bed::BEDLike;
         // the iterators are consumed in the mode of the case (collect / next / next then fold / for_each / size_hint)
         let mode = mode_of(t);
-        let groups = drain_mode(merge_sorted_bed_with(recs.clone(), |g| g).map(|g| g.iter().map(|x| x.to_genomic_range()).collect()), mode);
+        // the groups must be runs of the input IN INPUT ORDER, record for record (records with equal coordinates are told apart
+        // by their other fields): compared through the Debug images of the records
+        let images: Vec<String> = recs.iter().map(|x| format!("{:?}", x)).collect();
+        let raw: Vec<Vec<_>> = drain_mode(merge_sorted_bed_with(recs.clone(), |g| g), mode);
+        let flat: Vec<String> = raw.iter().flatten().map(|x| format!("{:?}", x)).collect();
+        assert!(flat == images, "the groups, flattened, are not the input records in input order");
+        let groups = raw.into_iter().map(|g| g.iter().map(|x| x.to_genomic_range()).collect()).collect();
         (groups, drain_mode(merge_sorted_bed(recs), mode / 5))
     });
     let mut w = W::new();
